@@ -41,7 +41,8 @@ Code details
 ~~~~~~~~~~~~
 """
 import numpy as np
-from sympy import Symbol
+import sympy
+from sympy import Expr, Symbol
 
 from .blackbirdParser import blackbirdParser
 from .error import BlackbirdSyntaxError
@@ -110,6 +111,17 @@ def _number(number):
     raise ValueError("Unknown number " + number.getText())
 
 
+_SYMPY_FUNCTIONS = {
+    "arcsin": "asin",
+    "arccos": "acos",
+    "arctan": "atan",
+    "arcsinh": "asinh",
+    "arccosh": "acosh",
+    "arctanh": "atanh",
+}
+"""dict[str->str]: Blackbird function names that differ from their SymPy equivalents"""
+
+
 def _func(function, arg):
     """Apply a blackbird function to an Python argument.
 
@@ -119,56 +131,62 @@ def _func(function, arg):
     Returns:
         int or float or complex
     """
+    value = _expression(arg)
+    if isinstance(value, Expr):
+        # template parameters and measured registers: apply the symbolic function
+        name = function.getText()
+        return getattr(sympy, _SYMPY_FUNCTIONS.get(name, name))(value)
+
     # exponential functions
     if function.EXP():
-        return np.exp(_expression(arg))
+        return np.exp(value)
 
     if function.LOG():
-        return np.log(_expression(arg))
+        return np.log(value)
 
     # trig functions
     if function.SIN():
-        return np.sin(_expression(arg))
+        return np.sin(value)
 
     if function.COS():
-        return np.cos(_expression(arg))
+        return np.cos(value)
 
     if function.TAN():
-        return np.tan(_expression(arg))
+        return np.tan(value)
 
     # trig inverses
     if function.ARCSIN():
-        return np.arcsin(_expression(arg))
+        return np.arcsin(value)
 
     if function.ARCCOS():
-        return np.arccos(_expression(arg))
+        return np.arccos(value)
 
     if function.ARCTAN():
-        return np.arctan(_expression(arg))
+        return np.arctan(value)
 
     # hyperbolic trig
     if function.SINH():
-        return np.sinh(_expression(arg))
+        return np.sinh(value)
 
     if function.COSH():
-        return np.cosh(_expression(arg))
+        return np.cosh(value)
 
     if function.TANH():
-        return np.tanh(_expression(arg))
+        return np.tanh(value)
 
     # hyperbolic trig inverses
     if function.ARCSINH():
-        return np.arcsinh(_expression(arg))
+        return np.arcsinh(value)
 
     if function.ARCCOSH():
-        return np.arccosh(_expression(arg))
+        return np.arccosh(value)
 
     if function.ARCTANH():
-        return np.arctanh(_expression(arg))
+        return np.arctanh(value)
 
     # other
     if function.SQRT():
-        return np.sqrt(_expression(arg))
+        return np.sqrt(value)
 
     raise NameError("Unknown function " + function.getText())
 
